@@ -84,6 +84,14 @@ Theorem C13_restore_on_exception_values : forall x bs lvl st st' evs oc,
 Proof. exact restore_fixed. Qed.
 Print Assumptions C13_restore_on_exception_values.
 
+(* ---- the recorded operation holds only a weak reference to the source tensordict (`with params.data.to_module(m):`
+   leaves with a dead one): block_ok says nothing about b_live, so every restore theorem above holds whether the source
+   is alive or not; and, for any block at all, the state the inverse leaves is the same in both cases *)
+Theorem C13_restore_independent_of_source : forall b swap st l1 l2,
+  fst (reverse_to_module (with_live b l1) swap st) = fst (reverse_to_module (with_live b l2) swap st).
+Proof. exact reverse_state_live_irrelevant. Qed.
+Print Assumptions C13_restore_independent_of_source.
+
 (* ---- inplace=True: identities stay, but with a tied tensor the original content is not written back (D134) *)
 Theorem C13_inplace_tied_values_refuted :
   let '(st', evs, oc) := run_blocks (mkExc XNone 0 false) [ex_b4] 0 (mkSt ex_heap4 ex_vals FRESH_BASE) in
